@@ -499,7 +499,16 @@ async def run_steps(W: World, steps: list[dict[str, Any]], rng: random.Random | 
                     except BaseException:  # noqa: BLE001
                         pass
         elif op == "block":
-            if step.get("catch") == "exceptions":
+            if step.get("catch") == "all-but-cancel":
+                # user code that handles whatever the block raises (also BaseException subclasses of its own) except a cancellation
+                try:
+                    await run_block(W, step, rng)
+                    W.caught[step["name"]] = None
+                except asyncio.CancelledError:
+                    raise
+                except BaseException as exc:  # noqa: BLE001
+                    W.caught[step["name"]] = exc
+            elif step.get("catch") == "exceptions":
                 # user code that handles a failing block (`except Exception: fallback`); cancellation is not its business
                 try:
                     await run_block(W, step, rng)
